@@ -61,7 +61,7 @@ _add(
          "variance is compared relatively only; (c) ISI of random rasters (time-first and time-last, ragged, empty); (d) Victor-Purpura laws on "
          "triples of spike-time vectors and against an independent dynamic programme. One evaluation = one "
          "(pair, sample time) / (distribution, parameters) / raster / triple; distinct = abstractions of those.",
-    required=["roundtrip_laws", "adjusted_bracket_laws", "linear_bracket_laws", "dist_laws", "isi_trains_checked", "vp_laws", "validity_queries", "narrow_moment_checks"],
+    required=["roundtrip_laws", "adjusted_bracket_laws", "linear_bracket_laws", "dist_laws", "isi_trains_checked", "vp_laws", "validity_queries", "narrow_moment_checks", "vp_cases_with_other_spike_time_dtypes"],
     floor={"quick": 100, "thorough": 200},
     text="Held on every input explored: algebraic laws that tie the numerical helpers to each other and to their "
          "definitions are evaluated on the real functions over dense grids and random inputs; a law that fails is "
@@ -356,7 +356,7 @@ _add(
          "configuration is compared (reported configuration, recordsz/dt/duration/inclusive of every internal "
          "RecordTensor, outputs from a cleared state on the same inputs). One evaluation = one assignment judged; "
          "distinct = (component kind, class, assigned attribute).",
-    required=["assignments_checked", "twin_comparisons", "output_comparisons", "assignments_after_use"],
+    required=["assignments_checked", "twin_comparisons", "output_comparisons", "assignments_after_use", "configured_dtype_checks"],
     floor={"quick": 40, "thorough": 80},
     text="Held on every assignment sequence explored: each real property setter reports the assigned value back, leaves "
          "every other reported attribute unchanged, and the setter-built object is indistinguishable - configuration, "
